@@ -219,6 +219,9 @@ class TableMachine:
         for k in ks:
             ops.append(("append_row", [(7, 1), (8, 1)], k))
         ops.append(("append_row", None, 1))
+        # Table.append(Row | Column) dispatches to append_row / append_column
+        ops.append(("append_row", [(7, 1), (8, 2)], 2, "generic"))
+        ops.append(("append_column", 2, "generic"))
         for x in xs:
             for k in ks:
                 ops.append(("insert_column", x, k))
@@ -393,7 +396,10 @@ class TableMachine:
         elif name == "insert_row":
             t.insert_row(op[1], None if op[2] is None else self._row(op[2], op[3]))
         elif name == "append_row":
-            t.append_row(None if op[1] is None else self._row(op[1], op[2]))
+            if len(op) > 3:
+                t.append(self._row(op[1], op[2]))
+            else:
+                t.append_row(None if op[1] is None else self._row(op[1], op[2]))
         elif name == "delete_row":
             t.delete_row(op[1])
         elif name == "set_row_values":
@@ -403,7 +409,10 @@ class TableMachine:
         elif name == "insert_column":
             t.insert_column(op[1], Column(repeated=op[2]))
         elif name == "append_column":
-            t.append_column(Column(repeated=op[1]))
+            if len(op) > 2:
+                t.append(Column(repeated=op[1]))
+            else:
+                t.append_column(Column(repeated=op[1]))
         elif name == "delete_column":
             t.delete_column(op[1])
         elif name == "set_column":
